@@ -13,7 +13,7 @@ PID = "C20"
 N, D = 10, 3
 MD_FC, MD_SC = 2, 10
 RF_FC, RF_SC = 1000, 2
-T0 = 1394333980  # 2014-03-09T02:59:40Z
+T0 = 1394333990  # 2014-03-09T02:59:50Z: the third write lands in the 03-00-00 subdirectory (local DST gap under DRFVERIF_TZ)
 
 FIXED_LO = md.first_of_ts(T0, N, D)
 FIXED_HI = md.first_of_ts(T0 + 600, N, D)
@@ -80,7 +80,7 @@ def run_history(seq):
         chdir = os.path.join(top, "ch0")
         mdir = os.path.join(chdir, "metadata")
         os.makedirs(mdir)
-        cfg = rf.Cfg(n=N, d=D, fc=RF_FC, sc=RF_SC, start=md.first_of_ts(T0, N, D), cont=False)
+        cfg = rf.Cfg(n=N, d=D, fc=RF_FC, sc=RF_SC, start=md.first_of_ts(T0 + 6, N, D), cont=False)
         rfw = rf.open_writer(drf, chdir, cfg)
         rfw.rf_write(rf.make_values(cfg, seed, cfg["start"], 5))  # first files exist, one still open as tmp
         mdw = drf.DigitalMetadataWriter(mdir, MD_SC, MD_FC, N, D, "metadata")
